@@ -19,6 +19,8 @@ static unsigned long long n_cases = 0, n_nontrivial = 0, n_refused = 0;
 
 /* ---- what the handler has to do ---- */
 enum { J_ARRAY, J_BLOCK, J_BLOCK_STREAM, J_HEADER, J_SCRIPT };
+static scpi_result_t h_part(scpi_t * c) { SCPI_ResultArbitraryBlockHeader(c, 10); SCPI_ResultArbitraryBlockData(c, "abcd", 4); return SCPI_RES_OK; }
+static scpi_result_t h_stray(scpi_t * c) { SCPI_ResultArbitraryBlockData(c, "xyz", 3); SCPI_ResultInt32(c, 7); return SCPI_RES_OK; }
 static int job, j_type, j_format; static size_t j_count, j_len;
 static void * j_data;
 static int j_script[8], j_nscript;
@@ -64,7 +66,7 @@ static scpi_result_t h_q(scpi_t * c) {
     }
     return SCPI_RES_OK;
 }
-static const scpi_command_t cmds[] = { {"Q?", h_q, 1}, SCPI_CMD_LIST_END };
+static const scpi_command_t cmds[] = { {"Q?", h_q, 1}, {"PART?", h_part, 2}, {"STRAY?", h_stray, 3}, SCPI_CMD_LIST_END };
 static tc_t T;
 
 /* ---- independent encoder: appends to E ---- */
@@ -109,7 +111,7 @@ int main(int argc, char ** argv) {
     size_t n, i;
     char descr[400];
     mc_init(argc, argv);
-    tc_init(&T, cmds, 16, 8);
+    tc_init(&T, cmds, 64, 8);
 
     /* ---- arrays ---- */
     for (t = 0; t < 10; t++) for (f = 1; f <= 2; f++) for (p = 0; p < 4; p++) {
@@ -217,6 +219,24 @@ int main(int argc, char ** argv) {
                 for (k = L - 1; k >= 0; k--) { if (++idx[k] < 11) break; idx[k] = 0; }
                 if (k < 0) break;
             }
+        }
+    }
+    /* block accounting is per unit: data without header is refused also behind a unit that left a block unfinished */
+    {
+        static const struct { const char * msg; const char * exp; int n310; } mu[] = {
+            {"PART?;STRAY?\n", "#210abcd;7\r\n", 1}, {"STRAY?\n", "7\r\n", 1}, {"PART?\n", "#210abcd\r\n", 0}, {"PART?;PART?;STRAY?;STRAY?\n", "#210abcd;#210abcd;7;7\r\n", 2},
+        };
+        for (k = 0; k < 4; k++) {
+            int e, n310 = 0;
+            if (!MC_CASE()) continue;
+            mc_case_tag = "two-units"; mc_case_s[0] = (const unsigned char *) mu[k].msg; mc_case_n[0] = strlen(mu[k].msg);
+            tc_reinit(&T, cmds); tr_reset();
+            SCPI_Input(&T.ctx, mu[k].msg, (int) strlen(mu[k].msg));
+            n_cases++;
+            for (e = 0; e < tc_nerr; e++) if (tc_errs[e] == SCPI_ERROR_SYSTEM_ERROR) n310++;
+            if (OUTN != strlen(mu[k].exp) || memcmp(OUT, mu[k].exp, OUTN) || n310 != mu[k].n310)
+                mc_viol("c17/unit/stray-data-after-unfinished-block-of-previous-unit", "message [%s]: output [%s] with %d x -310, expected [%s] with %d x -310", mc_es(mu[k].msg), mc_e(OUT, OUTN), n310, mc_es(mu[k].exp), mu[k].n310);
+            else n_nontrivial++;
         }
     }
     if (mc_shard == 0) {
